@@ -3,7 +3,7 @@
    kind_ladder / handlers / decorator tables / kind_map are Gen/C17_tables.v, regenerated from /repo on every run. *)
 From Coq Require Import List ZArith String Bool Arith.
 From Verif Require Import Lib.Sexp Model.C02_kinds Model.C02_params Proofs.C02_params Model.C17_base Gen.C17_tables Model.C17_agents Proofs.C17_agents
-  Model.C17_bases Proofs.C17_bases Model.C17_pyobj Proofs.C17_pyobj Model.C17_star Proofs.C17_star Model.C17_rebind Proofs.C17_rebind.
+  Model.C17_bases Proofs.C17_bases Model.C17_pyobj Proofs.C17_pyobj Model.C17_star Proofs.C17_star Model.C17_rebind Proofs.C17_rebind Model.C17_hooks Proofs.C17_hooks.
 From Verif Require Model.C04_scope.
 Import ListNotations.
 Open Scope string_scope. Open Scope list_scope. Open Scope nat_scope.
@@ -322,3 +322,46 @@ Theorem C17_rebind_refuted_type_checking :
   gap_rebind l = true /\ visit_all l = Some BImport /\ run_all l = Some BAssign.
 Proof. exact rebind_refuted_type_checking. Qed.
 Print Assumptions C17_rebind_refuted_type_checking.
+
+(* ... with the places of the statements and the conditions themselves in the model (TYPE_CHECKING, its negation, version
+   tests, except handlers): nothing about which branch runs is supplied from outside; the kept member is moreover a
+   runtime one.  gap_cond is the exact, decidable F12 predicate *)
+Theorem C17_rebind_cond_agree :
+  forall l, gap_cond l = false ->
+  option_map fst (visit_all_c l) = run_all (map lower l) /\
+  (forall k g, visit_all_c l = Some (k, g) -> g = true).
+Proof. exact rebind_cond_agree. Qed.
+Print Assumptions C17_rebind_cond_agree.
+
+Theorem C17_rebind_cond_refuted :
+  gap_cond [mkC BImport (PThen CTypeChecking); mkC BAssign (PElse CTypeChecking)] = true /\
+  visit_all_c [mkC BImport (PThen CTypeChecking); mkC BAssign (PElse CTypeChecking)] = Some (BImport, false) /\
+  run_all (map lower [mkC BImport (PThen CTypeChecking); mkC BAssign (PElse CTypeChecking)]) = Some BAssign /\
+  gap_cond [mkC BAssign (PThen CNotTypeChecking); mkC BImport (PElse CNotTypeChecking)] = true /\
+  visit_all_c [mkC BAssign (PThen CNotTypeChecking); mkC BImport (PElse CNotTypeChecking)] = Some (BImport, false).
+Proof. exact rebind_cond_refuted. Qed.
+Print Assumptions C17_rebind_cond_refuted.
+
+(* ---- read-only extension hooks.  ObjectNode.children is a cached property whose stored value is regenerated from
+   runtime.py (children_impl).  For every object tree and every history of reads of node.children by extensions (from
+   the hooks of the node or of any node above it, any number of times), the Inspector traverses the whole tree, the
+   same as without extensions *)
+Theorem C17_passive_hooks_invariant :
+  forall hook path t,
+  inspect_tree children_impl hook path t = inspect_tree children_impl no_hooks path t /\
+  inspect_tree children_impl hook path t = t.
+Proof. exact hooks_invariant. Qed.
+Print Assumptions C17_passive_hooks_invariant.
+
+(* every reader of a list-valued cache gets all the members; the traversal's visibility test is the cache model's *)
+Theorem C17_children_reads :
+  forall (members : list string) k,
+  seen_after CList members k = members /\ seen_after CGenerator members (S k) = [] /\
+  (forall impl, seen_after impl members k = if visible impl k then members else []).
+Proof. intros members k. repeat split; [apply seen_after_clist|apply seen_after_generator|intros impl; apply visible_spec]. Qed.
+Print Assumptions C17_children_reads.
+
+Theorem C17_passive_hooks_refuted_generator :
+  exists hook t, inspect_tree CGenerator no_hooks [] t = t /\ inspect_tree CGenerator hook [] t = ONode "pkg" [] /\ t <> ONode "pkg" [].
+Proof. exact hooks_refuted_generator. Qed.
+Print Assumptions C17_passive_hooks_refuted_generator.
